@@ -125,9 +125,9 @@ theorem c_step_ok (s : CState) (p : Phase) (hr : s.reg.isSome = true) (hf : s.fa
   obtain ⟨l, hl⟩ := Option.isSome_iff_exists.1 hr
   simp only [hf, Bool.false_eq_true, ↓reduceIte]
   cases p with
-  | initList g => cases g <;> simp [hl]
-  | mkTemp f r => cases r <;> simp [hl, hf]
-  | addFiles fs => simp [hl, hf]
+  | initList g => cases g <;> simp [hl, hf]
+  | mkTemp f r => cases r <;> simp [hl]
+  | addFiles fs => simp [hl]
 
 theorem c_never_fails_after_init (ps : List Phase) (s : CState) (hr : s.reg.isSome = true) (hf : s.failed = false) :
     (crun s ps).reg.isSome = true ∧ (crun s ps).failed = false := by
